@@ -135,7 +135,7 @@ func runC19(r *engine.Run) {
 	r.Rule("AGREE-pairing", "builder, prover and verifier of the Merkle tree agree on how a node is paired with its sibling: the builder hashes MHash(left, right) with right = left + 1 and duplicates the last node of an odd level; the verifier puts the path element first when the running index is odd and second when it is even; the prover takes the element before an odd index and the element after an even index (itself when none follows)")
 	r.Rule("AGREE-progression", "the three walks over the levels (size computation, builder, prover) step with the same expressions: next level size = ceil(size/2), next level offset = offset + size; verifier and prover halve the index the same way; the prover (which handles the leaf level before its loop) stops one level size later than the builder")
 	r.Rule("DOM-inlevel", "the prover reads the element after an even index only under the strict test that this element still lies inside the current level (index + 1 < level start + level size, with the level size the walk itself uses)")
-	r.Rule("DEP-offered", "verification recomputes the root from the offered leaf hash: VerifyMerklePath starts its running hash from its hash argument and compares the result with its root argument; VerifyPath hands it GetHash() of the offered node, the offered path and the tree's own root (a verifier that starts from the stored leaf only checks membership, so a path proves every leaf); that comparison is the only comparison of hash strings in the verifier (no other equality between path elements or running hashes decides acceptance)")
+	r.Rule("DEP-offered", "verification recomputes the root from the offered leaf hash: VerifyMerklePath starts its running hash from its hash argument and compares the result with its root argument; VerifyPath hands it GetHash() of the offered node, the offered path and the tree's own root (a verifier that starts from the stored leaf only checks membership, so a path proves every leaf); that comparison is the only comparison of hash strings in the verifier (no other equality between path elements or running hashes decides acceptance); VerifyPath returns nothing but that verifier's result; neither verifier stores through its parameters (a path can be verified again)")
 	r.Rule("AGREE-shape", "ComputeTree and SetTree establish the same three fields from computeSize; a path has levels - 1 elements; the root is the last element of the tree")
 	r.Rule("FRESH-tree", "GetTree hands out the node slice and SetTree installs the caller's slice without copying, so a method that stores nodes element by element (ComputeTree) assigns the tree field only from a make: recomputing never writes into memory an exported or loaded tree still uses")
 	r.Rule("DOM-atomic", "in SetTree no store to a receiver field can be followed by an error return: a rejected load leaves the tree (nodes, leaf count, levels) exactly as it was")
@@ -574,6 +574,54 @@ func c19Offered(r *engine.Run, verify *ssa.Function) {
 		}
 		good = okHash && okPath && okRoot
 	})
+	// VerifyPath adds no verdict of its own: every return is the verifier's result. A
+	// pre-check by leaf lookup rejects honest by-index paths of repeated leaf hashes
+	// (the lookup finds the first position only).
+	onlyDelegate := true
+	for _, ret := range engine.Returns(vp) {
+		if len(ret.Results) != 1 {
+			continue
+		}
+		c, ok := resultValue(ret, 0).(*ssa.Call)
+		if !ok || c.Call.StaticCallee() != verify {
+			onlyDelegate = false
+		}
+	}
+	r.Check(onlyDelegate, rule, fn(vp)+"|delegates the verdict", r.P.Pos(vp.Pos()), "every return of VerifyPath is the result of VerifyMerklePath",
+		"VerifyPath decides on something besides the recomputation (an extra return that is not the verifier's result): a path the tree produced by index is rejected when the pre-check disagrees, e.g. a lookup by hash that finds the first of two equal leaves")
+	// neither verifier writes through its arguments: a path is a value that can be verified again
+	for _, g := range []*ssa.Function{verify, vp} {
+		wr := ""
+		engine.Instrs(g, func(in ssa.Instruction) {
+			st, ok := in.(*ssa.Store)
+			if !ok {
+				return
+			}
+			root := st.Addr
+			for {
+				switch x := root.(type) {
+				case *ssa.FieldAddr:
+					root = x.X
+					continue
+				case *ssa.IndexAddr:
+					root = x.X
+					continue
+				}
+				break
+			}
+			if ld, ok := root.(*ssa.UnOp); ok {
+				root = ld.X
+				if fa, ok := root.(*ssa.FieldAddr); ok {
+					root = fa.X
+				}
+			}
+			if p, ok := root.(*ssa.Parameter); ok && p.Parent() == g {
+				wr = r.P.Pos(st.Pos())
+			}
+		})
+		r.Check(wr == "", rule, fn(g)+"|arguments untouched", r.P.Pos(g.Pos()), "no store through a parameter",
+			"the verifier writes into the path (or another argument) it was given (at "+wr+"): a path that was checked once - even against a wrong leaf - no longer verifies for its own leaf, and concurrent verification of a shared path races")
+	}
 	r.Check(good, rule, fn(vp)+"|arguments", r.P.Pos(vp.Pos()), "VerifyMerklePath(offered.GetHash(), offered path, own root)", "VerifyPath does not verify the offered node's own hash with the offered path against the tree's root: the path would prove any leaf of the tree")
 }
 
